@@ -11,6 +11,10 @@ package gsfa
 //@   mode int
 //@   ensures result1 == nil ==> result0 != nil && fresh(result0) && result0.man != nil
 //@   ensures result1 != nil ==> result0 == nil
+//@   # C10: the offsets index belongs to the same epoch and CAR as the manifest (version >= 2 manifests record both; a key the
+//@   # manifest does not carry reads as 0 / cid.Undef through the pure getters and is then not compared)
+//@   ensures result1 == nil && result0.man.Version() >= 2 && result0.man.Meta().GetUint64(indexmeta.MetadataKey_Epoch) != 0 ==> result0.offsets.Meta().Epoch == result0.man.Meta().GetUint64(indexmeta.MetadataKey_Epoch)
+//@   ensures result1 == nil && result0.man.Version() >= 2 && result0.man.Meta().GetCid(indexmeta.MetadataKey_RootCid) != cid.Undef ==> result0.offsets.Meta().RootCid == result0.man.Meta().GetCid(indexmeta.MetadataKey_RootCid)
 //@   noframe
 
 // `pure`: index.man and the manifest's header are set once by NewGsfaReader; (*GsfaReader).Close closes the offsets index and
